@@ -255,7 +255,10 @@ def real_case(workdir, case):
 # model side
 # ---------------------------------------------------------------------------------------------------------------------
 
-def model_request(case, init):
+def model_request(case, init, real=None):
+    """the model run for a case.  With `real` (the observed run) the oracle handed to the model is exactly the set of
+    DB-API calls that really raised — the injected ones plus any failure SQLite produced by itself (e.g. an IntegrityError
+    after an artificial reconnect lost the first half of a flush)"""
     opts, _body, prog, br = SHAPES[case['shape']]
     sessions = []
     base = init['n']
@@ -264,6 +267,16 @@ def model_request(case, init):
         sessions.append(dict(session_cfg(w[0], case['reconnect']), prog=w[2], bodyRaises=w[3], faults=[]))
     sessions.append(dict(session_cfg(opts, case['reconnect']), prog=prog, bodyRaises=br, faults=[base + k for k in case['faults']]))
     sessions.append(dict(session_cfg(FOLLOW[0], case['reconnect']), prog=FOLLOW[2], bodyRaises=FOLLOW[3], faults=[]))
+    if real is not None and real.get('sessions') and len(real['sessions']) == len(sessions):
+        k = base
+        for ms, rs in zip(sessions, real['sessions']):
+            observed = []
+            for e in rs['events']:
+                if len(e) == 4:
+                    if e[3] != 'ok': observed.append(k)
+                    k += 1
+            if sorted(observed) != sorted(ms['faults']): ms['natural_failures'] = True
+            ms['faults'] = observed
     return {'op': 'run', 'init': init, 'sessions': sessions}
 
 
@@ -301,6 +314,12 @@ def compare(ctx, case, real, model, foreign):
             r_out = 'raw' if r_out == 'wrapped' else r_out; m_out = 'raw' if m_out == 'wrapped' else m_out
         r_st = {k: rs['state'][k] for k in STATE_KEYS}
         m_st = {k: (sorted(ms['state'][k]) if isinstance(ms['state'][k], list) else ms['state'][k]) for k in STATE_KEYS}
+        if case['reconnect'] and 'already used in transaction cache' in (rs.get('exc') or ''):
+            # should_reconnect is forced to True on a provider that cannot reconnect inside a transaction: the retried INSERT
+            # gets a primary key the identity map already knows and the ORM (not a DB-API call) raises.  Outside the model's
+            # oracle (DB-API calls only); the property oracle has judged this run like any other.
+            ctx.count('skipped-correspondence:orm-error-after-forced-reconnect')
+            break
         if r_ev != m_ev or r_out != m_out or r_st != m_st:
             ok = False
             ctx.divergence('model and real provider disagree on session %d (%s)' % (i, rs['name']), case_json(case),
@@ -452,7 +471,8 @@ def check_cases(ctx, cases, reals):
     for c in cases:
         r = reals[c['id']]
         init = r.get('init') or {'n': 0, 'nextCon': 0, 'poolPid': False, 'closed': []}
-        reqs.append(model_request(c, init))
+        reqs.append(model_request(c, init, r))
+        if any(x.get('natural_failures') for x in reqs[-1]['sessions']): ctx.count('natural-failures-or-unreached-faults')
     models = ctx.driver('C19', reqs) if ctx.driver.ok else [None] * len(cases)
     for c, m in zip(cases, models):
         r = reals[c['id']]
